@@ -973,6 +973,7 @@ def machine_args(run, extra=()):
 
 @check("C08")
 def c08(run):
+    run.mc_leg("mc_machine", "MC_Machine", "MC_Machine2.cfg" if run.tier == "thorough" else "MC_Machine.cfg", workers=16, timeout=3000, heap="16g")
     run.trace_leg("machine", ["machine", "kind=all"], verdict=CONF + ["simerr", "intgate", "depth", "isolation", "obsprop"])
     return run.finish(
         rule="runs of the real Simulator (random machine states x random words at PC; structured programs through "
@@ -986,6 +987,7 @@ def c08(run):
 
 @check("C09")
 def c09(run):
+    run.mc_leg("mc_machine", "MC_Machine", "MC_Machine2.cfg" if run.tier == "thorough" else "MC_Machine.cfg", workers=16, timeout=3000, heap="16g")
     run.trace_leg("adv", ["machine", "kind=adv"], verdict=["isolation", "panic"])
     run.trace_leg("machine", ["machine", "kind=rand"], verdict=["isolation", "panic"])
     return run.finish(
@@ -998,6 +1000,7 @@ def c09(run):
 
 @check("C16")
 def c16(run):
+    run.mc_leg("mc_machine", "MC_Machine", "MC_Machine2.cfg" if run.tier == "thorough" else "MC_Machine.cfg", workers=16, timeout=3000, heap="16g")
     run.trace_leg("full", ["machine", "kind=full", "nfull=%d" % (60 if run.tier == "thorough" else 8)],
                   verdict=["panic", "simerr", "prefetchpc"])
     run.trace_leg("edge", ["machine", "kind=edge"], verdict=["panic", "simerr", "prefetchpc"])
@@ -1012,6 +1015,7 @@ def c16(run):
 
 @check("C27")
 def c27(run):
+    run.mc_leg("mc_machine", "MC_Machine", "MC_Machine2.cfg" if run.tier == "thorough" else "MC_Machine.cfg", workers=16, timeout=3000, heap="16g")
     run.trace_leg("prog", ["machine", "kind=prog", "dbg=1"], verdict=["depth", "frames", "fno", "panic"])
     run.trace_leg("int", ["machine", "kind=int", "dbg=1"], verdict=["depth", "frames", "fno", "panic"])
     run.trace_leg("rand", ["machine", "kind=rand", "strict=40", "dbg=1"], verdict=["depth", "frames", "fno", "panic"])
@@ -1025,6 +1029,7 @@ def c27(run):
 
 @check("C28")
 def c28(run):
+    run.mc_leg("mc_machine", "MC_Machine", "MC_Machine2.cfg" if run.tier == "thorough" else "MC_Machine.cfg", workers=16, timeout=3000, heap="16g")
     run.trace_leg("machine", ["machine", "kind=all"], verdict=["obs", "obsprop", "panic"])
     return run.finish(
         rule="all machine scenarios in non-strict and strict mode; the observer map is compared after every event with "
@@ -1055,6 +1060,7 @@ def c13(run):
 
 @check("C14")
 def c14(run):
+    run.mc_leg("mc_machine", "MC_Machine", "MC_Machine2.cfg" if run.tier == "thorough" else "MC_Machine.cfg", workers=16, timeout=3000, heap="16g")
     # the relation itself, on lockstep pairs of real runs
     r, path, n, rej = run.trace_leg("pairs", ["machine", "kind=strictpairs"], spec="TV_Pairs", cfg="TV_Pairs.cfg",
                                     verdict=PAIRV, expect_all=False)
